@@ -59,6 +59,7 @@ func NewStore(params *NewStoreParams) *Store {
 		log:                        slog.With("instanceID", "job"),
 		savepointURI:               params.SavepointURI,
 		subscriber:                 params.CheckpointEvents,
+		errChan:                    params.ErrChan,
 		retainedCheckpointsUpdated: params.RetainedCheckpointsUpdated,
 	}
 
